@@ -318,8 +318,11 @@ func writeBlock(r *rand.Rand, b *strings.Builder, v reflect.Value, blockType str
 				}
 			}
 		}
-		*keyCount++
 		fv := v.Field(i)
+		if c05Sparse && fv.Kind() != reflect.Struct && fv.IsZero() {
+			continue // sparse text: a field holding its zero value is simply not written
+		}
+		*keyCount++
 		switch fv.Kind() {
 		case reflect.Struct:
 			childType := key
@@ -399,6 +402,23 @@ func chainType(d int) reflect.Type {
 	return reflect.StructOf(fs)
 }
 
+// c05Sparse: the text of this case leaves out fields that hold their zero value (slice targets only: their
+// elements are fresh), so the blocks of one slice have key sets that are subsets and supersets of each other
+var c05Sparse bool
+
+func sparsify(r *rand.Rand, v reflect.Value, nameIdx int) {
+	for i := 0; i < v.NumField(); i++ {
+		f := v.Field(i)
+		switch {
+		case i == nameIdx:
+		case f.Kind() == reflect.Struct:
+			sparsify(r, f, nameFieldIndex(f.Type()))
+		case r.Intn(2) == 0:
+			f.Set(reflect.Zero(f.Type()))
+		}
+	}
+}
+
 func c05Case(c *core.Ctx, i int64, r *rand.Rand) {
 	var t reflect.Type
 	if i < 32 {
@@ -433,6 +453,11 @@ func c05Case(c *core.Ctx, i int64, r *rand.Rand) {
 		}
 	}
 	vals := make([]reflect.Value, nblocks)
+	c05Sparse = slice && r.Intn(3) == 0
+	defer func() { c05Sparse = false }()
+	if c05Sparse {
+		c.Count("slice_cases_written_sparsely", 1)
+	}
 	c05Spell = nil
 	var b strings.Builder
 	keys := 0
@@ -441,6 +466,9 @@ func c05Case(c *core.Ctx, i int64, r *rand.Rand) {
 	for k := range vals {
 		vals[k] = reflect.New(t).Elem()
 		fillValue(r, vals[k])
+		if c05Sparse {
+			sparsify(r, vals[k], nameFieldIndex(t))
+		}
 		if r.Intn(6) == 0 {
 			// one string field's value is the source spelling (quotes, backslashes and all) of another one's
 			var sf []reflect.Value
